@@ -19,7 +19,10 @@ Verdict(cs) ==
   ELSE IF Cardinality({ rs[k].hash : k \in oks }) > 1 THEN
        LET h == rs[CHOOSE x \in oks : \A y \in oks : x <= y].hash
            k == CHOOSE x \in oks : rs[x].hash # h /\ \A y \in oks : rs[y].hash # h => x <= y IN
-       [ok |-> FALSE, clause |-> "layout", key |-> "layout:output-differs:" \o rs[k].what, detail |-> ToString(k)]
+       \* hashc: the same output with the blanks removed from comments that echo a CLEAR statement
+       IF Cardinality({ rs[x].hashc : x \in oks }) = 1
+       THEN [ok |-> FALSE, clause |-> "layout", key |-> "layout:output-differs:only-blanks-inside-the-comment-that-echoes-CLEAR", detail |-> ToString(k)]
+       ELSE [ok |-> FALSE, clause |-> "layout", key |-> "layout:output-differs:" \o rs[k].what, detail |-> ToString(k)]
   ELSE IF oks # {} /\ SeqToSet(cs.srcstr) \ SeqToSet(cs.outstr) # {} THEN
        [ok |-> FALSE, clause |-> "content", key |-> "content:text-of-literal-DATA-item-or-comment-changed", detail |-> ToString(CHOOSE x \in SeqToSet(cs.srcstr) \ SeqToSet(cs.outstr) : TRUE)]
   ELSE [ok |-> TRUE, clause |-> "ok", key |-> "", detail |-> ToString(Len(rs))]
